@@ -9,6 +9,7 @@ use crate::test_runner::{format_cpu_details, ExecuteResult, TestRunner, TestRunn
 use crate::utils::paint;
 use ansi_term::Colour;
 use crossbeam_channel::{unbounded, Receiver, Sender};
+use itertools::Itertools;
 use mos_core::codegen::{CodegenContext, ProgramCounter};
 use mos_core::parser::source::ParsingSource;
 use mos_core::parser::IdentifierPath;
@@ -28,6 +29,48 @@ pub struct TestRunnerAdapter {
     event_sender: Sender<MachineEvent>,
     event_receiver: Receiver<MachineEvent>,
     breakpoints: Arc<Mutex<Vec<MachineBreakpoint>>>,
+    /// The breakpoints as the client has set them, per source file
+    breakpoints_by_source: HashMap<String, Vec<MachineBreakpoint>>,
+    test_case_path: IdentifierPath,
+}
+
+/// Tells the client how the test ended, when it has. Returns whether it has.
+fn report_result(
+    sender: &Sender<MachineEvent>,
+    test_case_path: &IdentifierPath,
+    result: ExecuteResult,
+) -> bool {
+    match result {
+        ExecuteResult::Running => false,
+        ExecuteResult::TestFailed(cycles, failure) => {
+            let _ = sender.send(MachineEvent::Message {
+                output: format!(
+                    "test {} {} {}: {}\n{}",
+                    test_case_path,
+                    paint(true, Colour::Red, "FAILED"),
+                    paint(true, Colour::Yellow, format!("({} cycles)", cycles)),
+                    failure.diagnostic,
+                    format_cpu_details(&failure.cpu, true)
+                ),
+                location: failure.diagnostic.location(),
+            });
+            let _ = sender.send(MachineEvent::Disconnected);
+            true
+        }
+        ExecuteResult::TestSuccess(cycles) => {
+            let _ = sender.send(MachineEvent::Message {
+                output: format!(
+                    "test {} {} {}",
+                    test_case_path,
+                    paint(true, Colour::Green, "ok"),
+                    paint(true, Colour::Yellow, format!("({} cycles)", cycles))
+                ),
+                location: None,
+            });
+            let _ = sender.send(MachineEvent::Disconnected);
+            true
+        }
+    }
 }
 
 impl TestRunnerAdapter {
@@ -104,44 +147,8 @@ impl TestRunnerAdapter {
                                     // Give rest of core a chance to do something
                                     thread::sleep(Duration::from_millis(0));
 
-                                    match result {
-                                        ExecuteResult::Running => {}
-                                        ExecuteResult::TestFailed(cycles, failure) => {
-                                            let _ = thread_sender.send(MachineEvent::Message {
-                                                output: format!(
-                                                    "test {} {} {}: {}\n{}",
-                                                    thread_test_case_path,
-                                                    paint(true, Colour::Red, "FAILED"),
-                                                    paint(
-                                                        true,
-                                                        Colour::Yellow,
-                                                        format!("({} cycles)", cycles)
-                                                    ),
-                                                    failure.diagnostic,
-                                                    format_cpu_details(&failure.cpu, true)
-                                                ),
-                                                location: failure.diagnostic.location(),
-                                            });
-                                            let _ = thread_sender.send(MachineEvent::Disconnected);
-                                            thread_is_connected.store(false, Ordering::Relaxed);
-                                        }
-                                        ExecuteResult::TestSuccess(cycles) => {
-                                            let _ = thread_sender.send(MachineEvent::Message {
-                                                output: format!(
-                                                    "test {} {} {}",
-                                                    thread_test_case_path,
-                                                    paint(true, Colour::Green, "ok"),
-                                                    paint(
-                                                        true,
-                                                        Colour::Yellow,
-                                                        format!("({} cycles)", cycles)
-                                                    )
-                                                ),
-                                                location: None,
-                                            });
-                                            let _ = thread_sender.send(MachineEvent::Disconnected);
-                                            thread_is_connected.store(false, Ordering::Relaxed);
-                                        }
+                                    if report_result(&thread_sender, &thread_test_case_path, result) {
+                                        thread_is_connected.store(false, Ordering::Relaxed);
                                     }
                                 }
                                 Err(e) => {
@@ -166,6 +173,8 @@ impl TestRunnerAdapter {
             event_sender,
             event_receiver,
             breakpoints,
+            breakpoints_by_source: HashMap::new(),
+            test_case_path: test_case_path.clone(),
         })
     }
 
@@ -185,6 +194,28 @@ impl TestRunnerAdapter {
         // (when the debug server is shutting down, a step that is still waiting for a subroutine to return gives up)
         adapter.runner.write().unwrap().set_interrupt(interrupt);
         Ok(Box::new(adapter))
+    }
+
+    /// Takes a step and leaves the machine stopped where that ends. The runner is held all the while: were it let go of
+    /// before the state says 'stopped', the machine thread (which may still think it is running, after a 'continue' that was
+    /// followed by a step right away) could execute instructions in between. And when the step runs into the end of the
+    /// test, or into an assertion that fails, that is how the test ends, just like it does when running freely.
+    fn step<F: FnOnce(&mut TestRunner) -> MosResult<ExecuteResult>>(&mut self, f: F) -> MosResult<()> {
+        // (a test that has ended, e.g. with a failed assertion, does not go on)
+        if !self.is_connected.load(Ordering::Relaxed) {
+            return Ok(());
+        }
+        let runner = self.runner.clone();
+        let mut runner = runner.write().unwrap();
+        let result = f(&mut runner)?;
+        let pc = runner.cpu().get_program_counter();
+        self.update_state(MachineRunningState::Stopped(ProgramCounter::new(
+            pc as usize,
+        )))?;
+        if report_result(&self.event_sender, &self.test_case_path, result) {
+            self.is_connected.store(false, Ordering::Relaxed);
+        }
+        Ok(())
     }
 
     fn update_state(&mut self, new: MachineRunningState) -> MosResult<()> {
@@ -256,30 +287,15 @@ impl MachineAdapter for TestRunnerAdapter {
     }
 
     fn next(&mut self) -> MosResult<()> {
-        {
-            let mut runner = self.runner.write().unwrap();
-            runner.step_over()?;
-        }
-        self.pause()?;
-        Ok(())
+        self.step(|runner| runner.step_over())
     }
 
     fn step_in(&mut self) -> MosResult<()> {
-        {
-            let mut runner = self.runner.write().unwrap();
-            runner.execute_instruction()?;
-        }
-        self.pause()?;
-        Ok(())
+        self.step(|runner| runner.execute_instruction())
     }
 
     fn step_out(&mut self) -> MosResult<()> {
-        {
-            let mut runner = self.runner.write().unwrap();
-            runner.step_out()?;
-        }
-        self.pause()?;
-        Ok(())
+        self.step(|runner| runner.step_out())
     }
 
     fn set_breakpoints(
